@@ -31,7 +31,7 @@ const SPH: &[&[[i64; 3]]] = &[
     &[[1, 4, 8], [4, 4, 7], [9, 0, 0], [0, 9, 0], [8, 1, 4], [-4, 7, 4], [7, 4, -4], [3, 6, 6], [6, 6, 3], [-6, 3, 6], [0, 0, -9], [4, 8, 1], [-1, -4, -8], [6, -6, 3]],
 ];
 
-fn tuple_strategy() -> BoxedStrategy<Vec<i64>> {
+pub fn tuple_strategy() -> BoxedStrategy<Vec<i64>> {
     let random = proptest::collection::vec(0i64..=MAXC, 15);
     let small = (proptest::collection::vec(0i64..4, 15), prop_oneof![Just(0i64), Just(MAXC - 3), 0i64..MAXC - 4]).prop_map(|(v, off)| v.into_iter().map(|x| x + off).collect::<Vec<_>>());
     // co-spherical: centre + 2^k * vector, optionally +-1 on one coordinate of one point
